@@ -86,5 +86,44 @@ func fixedDescs() []Desc {
 			FirstLen: 1,
 		}},
 	})
+
+	// 5. MPEG-TS, the PMT lists an elementary stream the client does not support (MPEG-1 audio,
+	//    with PES data of its own) BEFORE the H264 stream; the audio starts half a frame after
+	//    the video: tracks = H264, MPEG-4 audio; origin = first video dts
+	out = append(out, Desc{
+		Kind: "mpegts", Mode: "vod", Addr: "whole", PDT: "all", MediaSeq: 0,
+		Leading: StreamDesc{
+			Tracks: []TrackDesc{{TimeScale: 90000, Codec: "h264"}, {TimeScale: 90000, Codec: "aac"}},
+			Unsup:  []UnsupDesc{{Codec: "mp3", Before: 0}},
+			Segs: []SegDesc{
+				{HasDate: true, Date: date, DurNs: 100000000, PES: []PESDesc{
+					{Track: 0, PTS: 900000, DTS: 900000, ID: 0, AUs: 1, IDR: true},
+					{Track: 1, PTS: 901500, DTS: 901500, ID: 1, AUs: 1},
+					{Track: 0, PTS: 903000, DTS: 903000, ID: 2, AUs: 1},
+					{Track: 1, PTS: 903590, DTS: 903590, ID: 3, AUs: 1},
+					{Track: 0, PTS: 906000, DTS: 906000, ID: 4, AUs: 1},
+				}, XPES: []XPESDesc{{X: 0, After: 1, PTS: 900100, ID: 5}, {X: 0, After: 4, PTS: 902451, ID: 6}}},
+			},
+			FirstLen: 1,
+		},
+	})
+
+	// 6. the same without a supported audio track and without PES data on the unsupported streams:
+	//    PMT = MPEG-1 audio, H265, H264, Opus
+	out = append(out, Desc{
+		Kind: "mpegts", Mode: "vod", Addr: "whole", PDT: "all", MediaSeq: 0,
+		Leading: StreamDesc{
+			Tracks: []TrackDesc{{TimeScale: 90000, Codec: "h264"}},
+			Unsup:  []UnsupDesc{{Codec: "mp3", Before: 0}, {Codec: "h265", Before: 0}, {Codec: "opus", Before: 1}},
+			Segs: []SegDesc{
+				{HasDate: true, Date: date, DurNs: 100000000, PES: []PESDesc{
+					{Track: 0, PTS: 900000, DTS: 900000, ID: 0, AUs: 1, IDR: true},
+					{Track: 0, PTS: 903000, DTS: 903000, ID: 1, AUs: 1},
+					{Track: 0, PTS: 906000, DTS: 906000, ID: 2, AUs: 1},
+				}},
+			},
+			FirstLen: 1,
+		},
+	})
 	return out
 }
